@@ -443,6 +443,10 @@ _V1_REQUIRED = [
     "ind = 0",
     "while raw_lines[i][ind] == ' ':\n    ind += 1",
     "lines.append({'text': text, 'number': i + 1, 'indentation': ind, 'comment': current_comment})",
+    # the continuation join (Svc/V1Lines.v: go / join_next)
+    "text = raw_line",
+    "while i < len(raw_lines) - 1 and text[-1] == '\\\\' or text.endswith(' or'):\n    i += 1\n    if text[-1] == '\\\\':\n"
+    "        text = text[0:-1]\n    if text[-1] != ' ':\n        text = text + ' '\n    text = text + raw_lines[i].strip()",
 ]
 
 
